@@ -43,7 +43,11 @@ CHECKS['C08'] = dict(level='fault_enumeration', ref='DESIGN.md 3.5, 6 (C08)',
    text='Single-fault enumeration on the real code: for every mutating method x initial contents the workload is re-run once per database statement / file operation with an OperationalError or OSError injected at exactly that point (plus unbindable tag, unencodable text, stream breaking mid-read); '
         'every run, and a batch of concurrent and transactional schedules, is validated by TLC against the TLA+ monitor whose QuiescentAgreement clause compares counters, rows and value files whenever no call is in flight and at the end.',
    technique='fault enumeration at the SQLite/file boundary; every run validated by the TLA+ monitor (MonitorTrace) with TLC')
-NOTES = {'C08': CONC_NOTE + ' Faults are not injected into COMMIT/ROLLBACK (SQLite atomic commit trusted) nor into file removal (removing an existing file is assumed to succeed).', 'C05': CONC_NOTE, 'C06': CONC_NOTE, 'C03': SEQ_NOTE, 'C04': SEQ_NOTE, 'C09': SEQ_NOTE, 'C10': SEQ_NOTE}
+CHECKS['C07'] = dict(level='fault_enumeration', ref='DESIGN.md 6 (C07)',
+   text='Kill-point enumeration on the real code: each workload (every mutating method, inline and file values, streams, bulk removals, expired-head loops, transaction blocks incl. nested, aborted and BaseException-aborted ones) runs in a forked child that SIGKILLs itself immediately before its n-th database statement / file operation, for every n; '
+        'a fresh handle then observes the directory and TLC validates victim log + observation against KillTrace.tla (completed calls present, interrupted call all-or-nothing, present keys readable, writable, debris only unreferenced files / empty directories, repair converges). Thorough adds asynchronous SIGKILL at random delays.',
+   technique='kill-point enumeration at the SQLite/file boundary; each run validated against the TLA+ crash-recovery spec (KillTrace) with TLC')
+NOTES = {'C07': 'Trusted: SQLite atomic commit / WAL recovery and release of the write lock on process death; kill points are the boundary events of the victim (before each statement, file create/write/close/remove, directory create/remove); the lazy cull of writes is switched off in kill workloads (not observable per call). Deque/Index workloads are killed in C11/C12.', 'C08': CONC_NOTE + ' Faults are not injected into COMMIT/ROLLBACK (SQLite atomic commit trusted) nor into file removal (removing an existing file is assumed to succeed).', 'C05': CONC_NOTE, 'C06': CONC_NOTE, 'C03': SEQ_NOTE, 'C04': SEQ_NOTE, 'C09': SEQ_NOTE, 'C10': SEQ_NOTE}
 
 checks = []
 for pid, c in sorted(CHECKS.items()):
